@@ -195,14 +195,21 @@ func init() {
 				if c.Bool() {
 					s2.Codecs = nil
 				}
+				// the two services may resolve types differently (per-service option): what one of them cannot name must not
+				// become the other's problem later
+				s2.Via = Pick(c, "", "", "notfound", "fresh-notfound", "private")
 				cfg.Services = append(cfg.Services, s2)
 				for i, n := 0, c.Range(1, 3); i < n; i++ {
-					restPool = append(restPool, restMethods[c.Intn(10)]) // the sim2 methods
+					restPool = append(restPool, restMethods[c.Intn(11)]) // the sim2 methods
 				}
 			}
 			draw := func() *RPCPlan {
 				if len(restPool) > 0 && c.Prob(0.6) {
-					return genRESTClientRPC(c, &cfg, restPool[c.Intn(len(restPool))])
+					r := genRESTClientRPC(c, &cfg, restPool[c.Intn(len(restPool))])
+					if r != nil && c.Prob(0.25) {
+						r.Backend.Resp.Msgs, r.Backend.Resp.Err = nil, genErrSpec(c)
+					}
+					return r
 				}
 				return genRPC(c, ScenOpts{MaxMsgs: 3, MaxBytes: 400, Segment: true})
 			}
